@@ -515,5 +515,11 @@ func c07Shape(s *simkit.Sim, rc *simkit.RunCtx) int {
 
 // extendOn adds a valid transaction whose prevs are taken from the given view only.
 func extendOn(c *world.Corpus, s *simkit.Sim, view []*world.CTx, label string) *world.CTx {
+	// now and then a private transaction between parties that are not among these nodes: every node has the transaction,
+	// none has (or gets) its payload, and it spreads like any other
+	if s.D.Decide("private-tx", 12) == 11 {
+		c.NextPAL = dag.EncryptedPAL{[]byte("opaque-participant-list-entry-1"), []byte("opaque-participant-list-entry-2")}
+		s.Probes.Inc("private-transaction-without-payload")
+	}
 	return c.ExtendOn(view, label)
 }
